@@ -13,6 +13,7 @@ P = 'C01'
 @contract('bitcoin.core.serialize:VarIntSerializer.stream_serialize', prop=P)
 def varint_ser(cls: Const(VarIntSerializer), i: Int, f: Stream):
     requires(0 <= i and i < 2**64)
+    unfold(compact_size(i))
     requires(at_end(f))
     option(callable=True, modifies=['f'])
     ensures(sdata(f) == old(sdata(f)) + compact_size(i))
@@ -22,6 +23,7 @@ def varint_ser(cls: Const(VarIntSerializer), i: Int, f: Stream):
 @contract('bitcoin.core.serialize:BytesSerializer.stream_serialize', prop=P)
 def bytes_ser(cls: Const(BytesSerializer), b: Bytes, f: Stream):
     requires(len(b) < 2**64)
+    unfold(var_bytes(b))
     requires(at_end(f))
     option(callable=True, modifies=['f'])
     ensures(sdata(f) == old(sdata(f)) + var_bytes(b))
@@ -40,6 +42,7 @@ def outpoint_ser(self: Obj(COutPoint), f: Stream):
 @contract('bitcoin.core:CTxIn.stream_serialize', prop=P)
 def txin_ser(self: Obj(CTxIn), f: Stream):
     requires(valid_txin(self))
+    unfold(enc_txin(self))
     requires(at_end(f))
     option(callable=True, modifies=['f'])
     ensures(sdata(f) == old(sdata(f)) + enc_txin(self))
@@ -49,6 +52,7 @@ def txin_ser(self: Obj(CTxIn), f: Stream):
 @contract('bitcoin.core:CTxOut.stream_serialize', prop=P)
 def txout_ser(self: Obj(CTxOut), f: Stream):
     requires(valid_txout(self))
+    unfold(enc_txout(self))
     requires(at_end(f))
     option(callable=True, modifies=['f'])
     ensures(sdata(f) == old(sdata(f)) + enc_txout(self))
@@ -83,6 +87,7 @@ def vec_ser_txout(cls: Const(VectorSerializer), inner_cls: Const(CTxOut), objs: 
 def wstack_ser(self: Obj(CScriptWitness), f: Stream):
     requires(valid_wstack(self))
     unfold(valid_wstack(self))
+    unfold(enc_wstack(self))
     requires(at_end(f))
     option(callable=True, modifies=['f'])
     invariant(0, at_end(f) and sdata(f) == old(sdata(f)) + compact_size(len(self.stack)) + enc_items(self.stack[:_k]))
@@ -192,10 +197,52 @@ def outpoint_serialize(self: Obj(OneOf(COutPoint, CMutableOutPoint))):
 @contract('bitcoin.core.serialize:Serializable.serialize', name='txin_serialize', prop=P)
 def txin_serialize(self: Obj(OneOf(CTxIn, CMutableTxIn))):
     requires(valid_txin(self))
+    unfold(enc_txin(self))
     ensures(result == enc_txin(self))
 
 
 @contract('bitcoin.core.serialize:Serializable.serialize', name='txout_serialize', prop=P)
 def txout_serialize(self: Obj(OneOf(CTxOut, CMutableTxOut))):
     requires(valid_txout(self))
+    unfold(enc_txout(self))
     ensures(result == enc_txout(self))
+
+
+# ================================================================== decoders
+# T3 (round trip), T4 (truncation), T5/T6 (extra data, no other outcome) for the
+# fixed-layout objects; ghost parameters name the encoded value.
+@contract('bitcoin.core.serialize:Serializable.deserialize', name='outpoint_deserialize', prop=P)
+def outpoint_deserialize(cls: OneOf(COutPoint, CMutableOutPoint), buf: Bytes, allow_padding: Bool, *,
+                         o: Obj(COutPoint), extra: Bytes):
+    requires(valid_outpoint(o))
+    requires(buf == enc_outpoint(o) + extra)
+    raises(DeserializationExtraDataError, when=(not allow_padding) and len(extra) > 0,
+           ensures=eq_outpoint(exc.obj, o) and exc.padding == extra)
+    ensures(eq_outpoint(result, o) and typeis(result, cls))
+
+
+@contract('bitcoin.core.serialize:Serializable.deserialize', name='outpoint_deserialize_trunc', prop=P)
+def outpoint_deserialize_trunc(cls: OneOf(COutPoint, CMutableOutPoint), buf: Bytes, allow_padding: Bool, *,
+                               o: Obj(COutPoint)):
+    requires(valid_outpoint(o))
+    requires(strict_prefix(buf, enc_outpoint(o)))
+    raises(SerializationTruncationError, when=True)
+
+
+@contract('bitcoin.core.serialize:Serializable.deserialize', name='header_deserialize', prop=P)
+def header_deserialize(cls: Const(CBlockHeader), buf: Bytes, allow_padding: Bool, *,
+                       h: Obj(CBlockHeader), extra: Bytes):
+    requires(valid_header(h))
+    requires(buf == enc_header(h) + extra)
+    raises(DeserializationExtraDataError, when=(not allow_padding) and len(extra) > 0,
+           ensures=eq_header(exc.obj, h) and exc.padding == extra)
+    ensures(eq_header(result, h) and typeis(result, cls))
+
+
+@contract('bitcoin.core.serialize:Serializable.deserialize', name='header_deserialize_trunc', prop=P)
+def header_deserialize_trunc(cls: Const(CBlockHeader), buf: Bytes, allow_padding: Bool, *, h: Obj(CBlockHeader)):
+    requires(valid_header(h))
+    requires(strict_prefix(buf, enc_header(h)))
+    raises(SerializationTruncationError, when=True)
+
+
